@@ -284,6 +284,19 @@ static void p_keypair_read(ProbeEnv &e) {
     C(secp256k1_keypair_xonly_pub, secp256k1_keypair_xonly_pub(CTX, &x, &par, &F.kp[3]), O(&par, sizeof par));
     C(secp256k1_xonly_pubkey_serialize, secp256k1_xonly_pubkey_serialize(CTX, xb, &x), O(xb, 32));
 }
+// a keypair object whose public half was replaced by another valid key where it was kept (a torn write of the 96-byte record):
+// not something the API produces, but still plain bytes - what comes out must not depend on which context does the work
+static void p_keypair_mixed(ProbeEnv &e) {
+    secp256k1_keypair kp = F.kp[0]; memcpy(kp.data + 32, F.kp[1].data + 32, 64);
+    secp256k1_keypair t = kp;
+    C(secp256k1_keypair_xonly_tweak_add, secp256k1_keypair_xonly_tweak_add(CTX, &t, F.tweak), O(t.data, sizeof t.data));
+    unsigned char sk[32], xb[32], sig[64]; secp256k1_pubkey pk; secp256k1_xonly_pubkey x; int par = -1;
+    C(secp256k1_keypair_sec, secp256k1_keypair_sec(CTX, sk, &kp), O(sk, 32));
+    C(secp256k1_keypair_pub, secp256k1_keypair_pub(CTX, &pk, &kp)); ser_pk(e, &pk);
+    C(secp256k1_keypair_xonly_pub, secp256k1_keypair_xonly_pub(CTX, &x, &par, &kp), O(&par, sizeof par));
+    C(secp256k1_xonly_pubkey_serialize, secp256k1_xonly_pubkey_serialize(CTX, xb, &x), O(xb, 32));
+    C(secp256k1_schnorrsig_sign32, secp256k1_schnorrsig_sign32(CTX, sig, F.msg, &kp, F.aux), O(sig, 64));
+}
 // callbacks that fail: the failure path through the shared / static / any context
 static int failing_nonce(unsigned char *, const unsigned char *, const unsigned char *, const unsigned char *, void *, unsigned int) { g_seamc.nonce_calls++; fiber_yield_point(-6); return 0; }
 static int failing_nonce_h(unsigned char *, const unsigned char *, size_t, const unsigned char *, const unsigned char *, const unsigned char *, size_t, void *) { g_seamc.nonce_calls++; fiber_yield_point(-6); return 0; }
@@ -524,7 +537,7 @@ const std::vector<Probe> &probe_table() {
         {"recoverable_sign", p_recoverable}, {"recover", p_recover}, {"keypair", p_keypair}, {"keypair_tweak", p_keypair_tweak}, {"xonly", p_xonly},
         {"schnorr_sign", p_schnorr_sign}, {"schnorr_sign_custom", p_schnorr_sign_custom}, {"schnorr_verify", p_schnorr_verify}, {"tagged_sha256", p_tagged},
         {"ecdh", p_ecdh}, {"ellswift_create", p_ellswift_create}, {"ellswift_codec", p_ellswift_codec}, {"ellswift_xdh", p_ellswift_xdh},
-        {"musig", p_musig}, {"musig_adaptor", p_musig_adaptor}, {"musig_verify_side", p_musig_verify_side}, {"keypair_read", p_keypair_read}, {"failing_callbacks", p_failing_callbacks}, {"musig_counter", p_musig_counter},
+        {"musig", p_musig}, {"musig_adaptor", p_musig_adaptor}, {"musig_verify_side", p_musig_verify_side}, {"keypair_read", p_keypair_read}, {"keypair_mixed", p_keypair_mixed}, {"failing_callbacks", p_failing_callbacks}, {"musig_counter", p_musig_counter},
         {"adaptor_encrypt", p_adaptor_encrypt}, {"adaptor_rest", p_adaptor_rest}, {"s2c_sign", p_s2c_sign}, {"s2c_verify", p_s2c_verify},
         {"anti_exfil", p_anti_exfil}, {"anti_exfil_verify", p_anti_exfil_verify}, {"generator", p_generator}, {"generator_blinded", p_generator_blinded},
         {"pedersen_commit", p_pedersen_commit}, {"pedersen_rest", p_pedersen_rest}, {"rangeproof_sign", p_rangeproof_sign}, {"rangeproof_verify", p_rangeproof_verify},
